@@ -773,7 +773,9 @@ def unit_plane_capsule(ctx):
   unit = [dot(n, n) == 1, dot(ax, ax) == 1]
   base = kt.bg + unit
   big = bsq >= Q("1/4")
-  for regime, cond, twin in (("aligned", big, pins[0]), ("fallback", z3.Not(big), pins[3])):
+  iny = z3.And(n[1] > Q("-1/2"), n[1] < Q("1/2"))
+  regimes = (("aligned", big, pins[0]), ("fallback-y", z3.And(z3.Not(big), iny), pins[3]), ("fallback-z", z3.And(z3.Not(big), z3.Not(iny)), pins[5]))
+  for regime, cond, twin in regimes:
     P = Proof(ctx, base + [cond], names, rp, prefix=f"{regime}/", pins=pins)
     ctx.reach(P.full, f"twin:{regime}-regime", twin)
     P.goal("frame/x-is-plane-normal", veq(x, n), desc="plane_capsule: first frame axis is not the plane normal")
@@ -796,20 +798,36 @@ def unit_plane_capsule(ctx):
       pj = [z3.Real(f"proj_{i}") for i in range(3)]  # names for the projected axis (definitions)
       P.assume(veq(pj, proj))
       P.lemma("y*l=pj", veq(scl(y, l), pj), using=["y*l=proj", veq(pj, proj)])
-    if len(calls) == 1 and regime == "fallback":
+    if len(calls) == 1 and regime.startswith("fallback"):
+      # short projected axis: the second axis is a default direction (e_y if |n1| < 1/2 else e_z), made orthogonal to the
+      # plane normal and normalised (wp.normalize through its proved contract)
       xv, nn, l = calls[0]
-      iny = z3.And(n[1] > Q("-1/2"), n[1] < Q("1/2"))
+      b0 = [0, 1, 0] if regime == "fallback-y" else [0, 0, 1]
+      e = n[1] if regime == "fallback-y" else n[2]
       P.lemma("arg-is-proj", veq(xv, proj))
       P.lemma("|proj|^2", dot(proj, proj) == bsq, using=unit)
       P.lemma("l^2", l * l == bsq, using=["arg-is-proj", "|proj|^2", l * l == dot(xv, xv)])
       P.lemma("l<1/2", l < Q("1/2"), using=["l^2", l >= 0, cond])
-      P.lemma("y-default", veq(y, [0, z3.If(iny, 1, 0), z3.If(iny, 0, 1)]))
       P.lemma("x-is-n", veq(x, n))
-      P.lemma("y.y=1", dot(y, y) == 1, using=["y-default"])
-      P.lemma("x.y", dot(x, y) == z3.If(iny, n[1], n[2]), using=["y-default", "x-is-n"])
+      if gi.norms:
+        xn, ln, nrm = gi.norms[-1]
+        arg = sub(b0, scl(n, e))
+        P.lemma("normalize-arg", veq(xn, arg))
+        P.lemma("|arg|^2", dot(arg, arg) == 1 - e * e, using=unit)
+        P.lemma("e^2<=3/4", e * e <= Q("3/4"), using=unit + [cond])
+        P.lemma("len^2", ln * ln == 1 - e * e, using=["normalize-arg", "|arg|^2", ln * ln == dot(xn, xn)])
+        P.lemma("len>0", ln > 0, using=["len^2", "e^2<=3/4", ln >= 0])
+        P.lemma("nrm*len=arg", veq(scl(nrm, ln), arg), using=["normalize-arg", "len>0", z3.Implies(ln > 0, z3.And(veq(scl(nrm, ln), xn), dot(nrm, nrm) == 1))])
+        P.lemma("nrm.nrm=1", dot(nrm, nrm) == 1, using=["len>0", z3.Implies(ln > 0, z3.And(veq(scl(nrm, ln), xn), dot(nrm, nrm) == 1))])
+        P.lemma("n.arg=0", dot(n, arg) == 0, using=unit)
+        P.lemma("(n.nrm)*len=0", dot(n, nrm) * ln == 0, using=["nrm*len=arg", "n.arg=0"])
+        P.lemma("n.nrm=0", dot(n, nrm) == 0, using=["(n.nrm)*len=0", "len>0"])
+        P.lemma("y-is-nrm", veq(y, nrm))
+        P.lemma("y.y=1", dot(y, y) == 1, using=["y-is-nrm", "nrm.nrm=1"])
+        P.lemma("x.y=0", dot(x, y) == 0, using=["y-is-nrm", "x-is-n", "n.nrm=0"])
     ortho = z3.And(dot(y, y) == 1, dot(x, y) == 0, veq(z, cross(x, y)))
     P.lemma("z=x cross y", veq(z, cross(x, y)))
-    P.goal("frame/orthonormal", ortho, using=["y.y=1", "x.y=0", "x.y", "z=x cross y"], desc="plane_capsule: contact frame is not orthonormal / right-handed (second axis not unit or not orthogonal to the plane normal)")
+    P.goal("frame/orthonormal", ortho, using=["y.y=1", "x.y=0", "z=x cross y"], desc="plane_capsule: contact frame is not orthonormal / right-handed (second axis not unit or not orthogonal to the plane normal)")
     if regime == "aligned":
       P.goal("frame/y-along-capsule", z3.And(veq(cross(y, pj), [0, 0, 0]), dot(y, pj) > 0), using=["y*l=pj", "y.y=1", "l>=1/2"], desc="plane_capsule: second frame axis is not the capsule axis projected on the plane (MuJoCo aligns the frame with the capsule)")
     for i, sgn in enumerate((1, -1)):
